@@ -32,6 +32,7 @@ func TestDebug_Cluster_Replay(t *testing.T) {
 			msg := dbgCheck(os.Getenv("VERIF_CLUSTER_CHECK"), plan, run)
 			if msg != "" {
 				t.Logf("run %d: %s", i, msg)
+				dbgViews(t, plan, run)
 				dbgDump(t, run)
 				return
 			}
@@ -89,5 +90,15 @@ func dbgDump(t *testing.T, run kRun) {
 			m, err := rr.ToMessage()
 			t.Logf("caller %d op %d [%d] +%d..+%dus: %v %v", r.Caller, r.Op, i, r.StartUs, r.EndUs, m.String(), err)
 		}
+	}
+}
+
+func dbgViews(t *testing.T, plan kPlan, run kRun) {
+	obs := kObserve(plan, run)
+	for _, tp := range run.Taps {
+		t.Logf("tap %s +%dus", tp.Key, tp.At)
+	}
+	for _, v := range obs.Views {
+		t.Logf("view from %s sent +%dus answered +%dus", v.Server, v.SentAt, v.At)
 	}
 }
